@@ -8,7 +8,7 @@ PROFILE = {'name': 'c04', 'max_clients': 6, 'hostile_masks': False, 'mp_rate': 0
 def run(ctx):
     res = Result("C04")
     results, cover, shapes = common.e1_check(
-        ctx, res, PROFILE, n_quick=128, n_thorough=640, steps=150, steps_thorough=300,
+        ctx, res, PROFILE, n_quick=128, n_thorough=2560, steps=150, steps_thorough=300,
         relevant=lambda t: t[0] in ('names', 'who', 'whois', 'nick', 'part-last', 'create', 'kick'),
         nontrivial_rule="random histories of joins (single and comma lists), parts, kicks, nick changes, quits and abrupt closes over 3-5 channels with +i users, +s channels and multi-prefix on/off; after every step all sockets' announcements are compared with the model and the snapshot (I1/I2 + roster equality); NAMES/WHO/WHOIS probes are checked between visibility bounds; distinct = (probe kind, viewer is member, secret, invisible members present | nick/kick/part outcome class)")
     probes = sum(n for s, n in shapes.items() if s in ("names", "who", "whois"))
